@@ -1423,4 +1423,40 @@ def PathRelBack {V : Type} (p2 p : Path2 V) : Prop :=
   p2.path = p.path ∧ p2.params.map inputA2 = p.params.map inputA2 ∧
   rel2 OpA.sim (p2.ops.map (opA2 p2.path)) (p.ops.map (opA2 p.path))
 
+/-! ## §9 the fragment with form parameters (ToV3) -/
+
+/-- an inline form parameter of the fragment -/
+def formOK3 {V : Type} : PRef2 V → Bool
+  | .ref _ _ => false
+  | .val p => p.loc == "formData" && itemsOK3 p.items
+
+/-- a request input: query / header / path parameter, body parameter, or inline form parameter -/
+def inputOKF {V : Type} (cs : List String) (q : PRef2 V) : Bool := inputOK3 cs q || formOK3 q
+
+/-- the inline form parameters of a parameter list, in order -/
+def formVals {V : Type} : List (PRef2 V) → List (Param2 V)
+  | [] => []
+  | .val p :: r => if p.loc = "formData" then p :: formVals r else formVals r
+  | .ref _ _ :: r => formVals r
+
+/-- an operation takes either at most one body parameter, or form parameters with distinct names under a form
+    media type (never both: ToV3 rejects that) -/
+def opInputsOK {V : Type} (bks dc : List String) (o : Op2 V) : Bool :=
+  o.params.all (inputOKF (effConsumes dc o)) &&
+  (((formVals o.params).isEmpty && decide ((o.params.filter (isBodyIn bks)).length ≤ 1)) ||
+   ((o.params.filter (isBodyIn bks)).isEmpty &&
+    nodupKeys ((formVals o.params).map (fun p => (p.name, toV3FormProp p))) && (effConsumes dc o).any isFormMime)) &&
+  o.responses.all (fun kr => respOK3 kr.2)
+
+def pathInputsOK {V : Type} (bks dc : List String) (p : Path2 V) : Bool :=
+  p.params.all (pathParamOK bks) && p.ops.all (opInputsOK bks dc)
+
+/-- documents whose operations take query / header / path parameters and a body parameter or form parameters;
+    shared parameters: query / header / path / body -/
+def docInputs {V : Type} (d : Doc2 V) : Bool :=
+  d.params.all (fun kp => sharedOK3 d.consumes kp.2) && d.paths.all (pathInputsOK (bodyKeys d.params) d.consumes) &&
+  d.responses.all (fun kr => respOK3 kr.2) &&
+  nodupKeys d.defs && d.defs.all (fun ks => !addlImpure ks.2 && v2Refs ks.2) &&
+  d.secs.all (fun ks => secInFragment ks.2) && locOK d.loc
+
 end KinModel.Conv
